@@ -27,6 +27,8 @@ pub struct Fixture {
     pub sn_a: Element,
     /// AR-PACKAGES below package A (destination of moves whose source parent is an ancestor of the destination)
     pub sub_a: Element,
+    /// DATA-CONSTR-RULES with two rules that are not in sorted order (sort() has something to do; unnamed sub elements can be added)
+    pub dc_rules: Element,
 }
 
 pub const DOC_NEW: &str = "<?xml version=\"1.0\" encoding=\"utf-8\"?>\n<AUTOSAR xsi:schemaLocation=\"http://autosar.org/schema/r4.0 AUTOSAR_00050.xsd\" xmlns=\"http://autosar.org/schema/r4.0\" xmlns:xsi=\"http://www.w3.org/2001/XMLSchema-instance\"><AR-PACKAGES><AR-PACKAGE><SHORT-NAME>Loaded</SHORT-NAME><ELEMENTS><SYSTEM><SHORT-NAME>LSys</SHORT-NAME></SYSTEM></ELEMENTS></AR-PACKAGE></AR-PACKAGES></AUTOSAR>";
@@ -60,6 +62,17 @@ pub fn fixture(mixed_versions: bool) -> Fixture {
         .unwrap();
     let sn_a = pkg_a.get_sub_element(ElementName::ShortName).unwrap();
     let sub_a = pkg_a.create_sub_element(ElementName::ArPackages).unwrap();
+    let dc_rules = elements_a
+        .create_named_sub_element(ElementName::DataConstr, "Dc")
+        .and_then(|dc| dc.create_sub_element(ElementName::DataConstrRules))
+        .unwrap();
+    for level in [2u64, 1] {
+        dc_rules
+            .create_sub_element(ElementName::DataConstrRule)
+            .and_then(|r| r.create_sub_element(ElementName::ConstrLevel))
+            .and_then(|l| l.set_character_data(level))
+            .unwrap();
+    }
     Fixture {
         model,
         f1,
@@ -76,6 +89,7 @@ pub fn fixture(mixed_versions: bool) -> Fixture {
         fibex_ref2,
         sn_a,
         sub_a,
+        dc_rules,
     }
 }
 
@@ -124,6 +138,10 @@ pub fn catalogue() -> Vec<OpDef> {
         OpDef { name: "ecu.set_item_name(Ecu2)", writer: true, run: |f| r(f.ecu.set_item_name("Ecu2"), |()| String::new()) },
         OpDef { name: "elements_b.move(ecu)", writer: true, run: |f| r(f.elements_b.move_element_here(&f.ecu), |e| e.item_name().unwrap_or_default()) },
         OpDef { name: "sub_a.move(pkg_b)", writer: true, run: |f| r(f.sub_a.move_element_here(&f.pkg_b), |e| e.item_name().unwrap_or_default()) },
+        OpDef { name: "dc_rules.create(DATA-CONSTR-RULE)", writer: true, run: |f| r(f.dc_rules.create_sub_element(ElementName::DataConstrRule), |_| String::new()) },
+        OpDef { name: "root.remove(pkgs)", writer: true, run: |f| r(f.model.root_element().remove_sub_element(f.pkgs.clone()), |()| String::new()) },
+        OpDef { name: "root.copy(pkgs)", writer: true, run: |f| r(f.model.root_element().create_copied_sub_element(&f.pkgs), |_| String::new()) },
+        OpDef { name: "model.remove_all_files(composite)", writer: true, run: |f| { f.model.remove_file(&f.f1); f.model.remove_file(&f.f2); String::new() } },
         OpDef { name: "sn_a.set_character_data(A3)", writer: true, run: |f| r(f.sn_a.set_character_data("A3"), |()| String::new()) },
         OpDef { name: "ref.set_reference_target(sig)", writer: true, run: |f| r(f.fibex_ref.set_reference_target(&f.signal), |()| String::new()) },
         OpDef { name: "ref2.set_reference_target(ecu)", writer: true, run: |f| r(f.fibex_ref2.set_reference_target(&f.ecu), |()| String::new()) },
@@ -295,7 +313,7 @@ fn judge(prop: &str, rep: &mut Report, ops: &[&OpDef], mixed: bool, out: &Outcom
         return;
     }
     // iterator pipelines (dfs().count() etc.) are sequences of next() calls, not single operations: not judged here
-    if ops.iter().any(|o| o.name.ends_with(".count")) {
+    if ops.iter().any(|o| o.name.ends_with(".count") || o.name.ends_with("(composite)")) {
         rep.count("schedules_with_composite_readers(not judged)", 1);
         return;
     }
@@ -461,7 +479,7 @@ pub fn worker_main(prop: &str, tier: &str, seed: u64, shard: usize, shards: usiz
     autosar_data::verif::set_monitor(Some(sched.clone()));
     let cat = catalogue();
     // the quick tier is a deterministic enumeration (no random schedules), so that the set of reachable findings does not depend on the seed
-    let (dfs_cap, bound, random) = if thorough { (1500, 2, 300) } else { (80, 1, 0) };
+    let (dfs_cap, bound, random) = if thorough { (1500, 2, 300) } else { (250, 1, 0) };
     let mut tuples = 0u64;
     let mut index = 0usize;
     for i in 0..cat.len() {
@@ -483,6 +501,11 @@ pub fn worker_main(prop: &str, tier: &str, seed: u64, shard: usize, shards: usiz
                 // the set of findings reachable on a given tree does not depend on the seed (the seed is recorded in the evidence only)
                 let mut rng = Rng::derive(0x5eed, "sched", index as u64);
                 explore(prop, rep, &sched, &[&cat[i], &cat[j]], mixed, &mut rng, dfs_cap, bound, random);
+                // the default schedule runs the first operation to its end before the second one starts, so a bounded number of
+                // deviations explores the two orders differently: pairs of writers are explored in the other order as well
+                if i != j && cat[i].writer && cat[j].writer {
+                    explore(prop, rep, &sched, &[&cat[j], &cat[i]], mixed, &mut rng, dfs_cap, bound, 0);
+                }
             }
         }
     }
